@@ -524,7 +524,6 @@ func (t *transitiveClosure) addElement(
 			inputMode, outputMode := t.elements[inputInfo.element], t.elements[outputInfo.element]
 			if inputMode == inclusionModeExcluded || outputMode == inclusionModeExcluded {
 				// The input or ouptut is excluded, so this method is also excluded.
-				t.elements[inputInfo.element] = inclusionModeExcluded
 				continue
 			}
 			if err := t.addElement(method, "", false, imageIndex, opts); err != nil {
